@@ -16,4 +16,5 @@ Extraction "model.ml"
   Blake3.b3_hash Blake3.b3_keyed_hash Blake3.b3_derive_key Blake3.b3_xof_mode Blake3.b3_hash_mode
   B3sum.parse_check_line B3sum.filepath_to_string B3sum.print_line B3sum.print_body B3sum.unescape B3sum.check_for_invalid_characters
   B3sum.hex_half_byte B3sum.utf8_encode B3sum.utf8_lossy B3sum.hash_one_input B3sum.run_hash B3sum.b3sum_check B3sum.exit_status B3sum.asis_cfg B3sum.fixed_cfg B3sum.read_key_from_stdin B3sum.hex_of_bytes
+  Portable.compress_in_place Portable.compress_xof Portable.hash_many Platform.portable_xof_many Word.words_of_bytes Word.bytes_of_words
   GenFormulas.rs_left_subtree_len GenFormulas.rs_max_subtree_len GenFormulas.rs_largest_power_of_two_leq.
